@@ -30,6 +30,7 @@ type mWatch struct {
 	// lives on: an open descriptor, or - for a directory - an unlinked entry
 	// that is still open)
 	ParentRemoved bool
+	Victim        bool // a directory below a recursive watch that another directory was renamed onto: the library has replaced its watch when its own last records (ATTRIB, DELETE_SELF) arrive; reporting them is optional
 }
 
 // Incarnation is the life of one model watch, for Stage A.
@@ -315,6 +316,13 @@ func (m *Model) Feed(r *sinot.Record) []MEvent {
 	}
 	if w.Recurse && r.Mask&unix.IN_ISDIR != 0 && r.Name != "" && r.Mask&(unix.IN_CREATE|unix.IN_MOVED_TO) != 0 {
 		if ev.From != "" {
+			// rename(2) onto an existing (empty) covered directory: that one is gone,
+			// and its place in the tables passes to the directory that was moved
+			for k := range m.W {
+				if m.W[k].Recurse && m.W[k].Spelling == name {
+					m.W[k].Victim = true
+				}
+			}
 			// a directory moved within the tree: it and its descendants are now
 			// reported under the new location
 			for k := range m.W {
@@ -334,6 +342,9 @@ func (m *Model) Feed(r *sinot.Record) []MEvent {
 	}
 	if ev.Op == 0 {
 		return nil
+	}
+	if w.Victim && r.Name == "" {
+		ev.Optional = true
 	}
 	return []MEvent{ev}
 }
